@@ -464,6 +464,214 @@ func c15(c *wk.Ctx) {
 	c15seq(c)
 	c15conc(c)
 	c15race(c)
+	c15pair(c)
+}
+
+// c15pair: two or three actors work on ONE service at the same moment, round after round on one
+// directory: the hosting server creates the service locally (register + ready), then a remote
+// client's burst of operations on it (updateServiceInfo / service / services / unregisterService)
+// overlaps its removal (the server's local Service.Terminate, or another client's unregisterService)
+// and sometimes a registration of the same name; each round ends with sequential reads. The whole
+// history is checked against the sequential model with porcupine: e.g. an update that re-inserts a
+// service removed in between makes the closing service() / services() answers (and the next round's
+// registration of the name) impossible in every sequential order.
+func c15pair(c *wk.Ctx) {
+	c.Cases("pair", c.Pick(360, 12000), func(i int, rng *rand.Rand) {
+		w, err := newWorld("unix", nil)
+		if err != nil {
+			c.Inconclusive("pair", i, "world: "+err.Error())
+			return
+		}
+		defer w.close()
+		var progress int64
+		var ds []services.ServiceDirectoryProxy
+		for k := 0; k < 3; k++ {
+			sess, err := w.session()
+			if err != nil {
+				c.Inconclusive("pair", i, err.Error())
+				return
+			}
+			defer sess.Terminate()
+			d, err := services.ServiceDirectory(sess)
+			if err != nil {
+				c.Inconclusive("pair", i, err.Error())
+				return
+			}
+			ds = append(ds, d)
+		}
+		log, stop, err := watchEvents(ds[2], &progress, w.addr)
+		if err != nil {
+			c.Inconclusive("pair", i, err.Error())
+			return
+		}
+		defer stop()
+		var mu sync.Mutex
+		var ops []porcupine.Operation
+		wantAdded := map[uint32]bool{}
+		addOp := func(client int, in dirIn, call int64, out dirOut, ret int64) {
+			mu.Lock()
+			ops = append(ops, porcupine.Operation{ClientId: client, Input: in, Call: call, Output: out, Return: ret})
+			if in.Op == "ready" && !out.Err {
+				wantAdded[in.ID] = true
+			}
+			mu.Unlock()
+			atomic.AddInt64(&progress, 1)
+		}
+		remote := func(client int, in dirIn) dirOut {
+			call := now()
+			out := remoteOp(ds[client], in)
+			addOp(client, in, call, out, now())
+			return out
+		}
+		rounds := 6 + rng.Intn(14)
+		overlapped := 0
+		var shapes []string
+		for k := 0; k < rounds; k++ {
+			name := fmt.Sprintf("p%d", rng.Intn(2))
+			call := now()
+			s, err := w.server.NewService(name, probe.ProbeObject(svc.NewImpl(name)))
+			ret := now()
+			if err != nil {
+				// the name must be free at this point: the model decides
+				addOp(100, dirIn{Op: "register", Name: name, Tag: w.addr, Valid: true}, call, dirOut{Err: true, Msg: short(err)}, ret)
+				continue
+			}
+			id := s.ServiceID()
+			addOp(100, dirIn{Op: "register", Name: name, Tag: w.addr, Valid: true}, call, dirOut{ID: id}, ret)
+			addOp(200, dirIn{Op: "ready", ID: id}, call, dirOut{}, ret)
+			burst := 1 + rng.Intn(10)
+			aKind := rng.Intn(5)
+			bKind := rng.Intn(3)
+			third := rng.Intn(3) == 0
+			yields := rng.Intn(60)
+			shapes = append(shapes, fmt.Sprintf("a%d.b%d.n%d", aKind, bKind, burst))
+			start := make(chan struct{})
+			var wg sync.WaitGroup
+			wg.Add(2)
+			go func() { // actor A: a remote client's burst on the service
+				defer wg.Done()
+				<-start
+				for j := 0; j < burst; j++ {
+					switch aKind {
+					case 0, 1:
+						remote(0, dirIn{Op: "update", ID: id, Name: name, Tag: newTag(), Valid: true})
+					case 2:
+						remote(0, dirIn{Op: "service", Name: name})
+					case 3:
+						remote(0, dirIn{Op: "services"})
+					default:
+						if j == burst/2 {
+							remote(0, dirIn{Op: "unregister", ID: id})
+						} else {
+							remote(0, dirIn{Op: "update", ID: id, Name: name, Tag: newTag(), Valid: true})
+						}
+					}
+				}
+			}()
+			var bCall, bRet int64
+			go func() { // actor B: the removal
+				defer wg.Done()
+				<-start
+				for y := 0; y < yields; y++ {
+					runtime.Gosched()
+				}
+				if bKind == 1 {
+					bCall = now()
+					remote(1, dirIn{Op: "unregister", ID: id})
+					bRet = now()
+					return
+				}
+				bCall = now()
+				s.Terminate()
+				bRet = now()
+				addOp(101, dirIn{Op: "localterminate", ID: id}, bCall, dirOut{}, bRet)
+			}()
+			if third {
+				wg.Add(1)
+				go func() { // actor C: somebody asks for the same name
+					defer wg.Done()
+					<-start
+					out := remote(2, dirIn{Op: "register", Name: name, Tag: newTag(), Valid: true})
+					if !out.Err {
+						remote(2, dirIn{Op: "unregister", ID: out.ID})
+					}
+				}()
+			}
+			close(start)
+			done := make(chan struct{})
+			go func() { wg.Wait(); close(done) }()
+			detail := map[string]interface{}{"round": k, "id": id}
+			if v, dump := stuck.Wait(done, &progress, 3*time.Minute); v == stuck.Stuck {
+				detail["dump"] = clipDump(dump)
+				c.Viol("pair", i, "operation=never-returned/"+wk.PanicSite(dump), "a directory operation never returned", detail)
+				c.Abandon("directory blocked")
+				return
+			} else if v == stuck.Watchdog {
+				c.Inconclusive("pair", i, "watchdog")
+				return
+			}
+			// did the removal overlap one of A's operations ?
+			mu.Lock()
+			for _, op := range ops {
+				if op.ClientId == 0 && op.Call < bRet && bCall < op.Return {
+					overlapped++
+					break
+				}
+			}
+			mu.Unlock()
+			// sequential closing reads, then make sure the service is gone
+			remote(0, dirIn{Op: "service", Name: name})
+			remote(1, dirIn{Op: "services"})
+			if bKind == 1 {
+				tc := now()
+				s.Terminate()
+				addOp(101, dirIn{Op: "localterminate", ID: id}, tc, dirOut{}, now())
+			}
+			remote(0, dirIn{Op: "services"})
+		}
+		mu.Lock()
+		hist := append([]porcupine.Operation{}, ops...)
+		mu.Unlock()
+		init := dirState{ready: []dirEntry{{1, "ServiceDirectory", w.addr}}, lastID: 1}
+		model := c15model
+		model.Init = func() interface{} { return init }
+		res, _ := porcupine.CheckOperationsVerbose(model, hist, 90*time.Second)
+		detail := map[string]interface{}{"rounds": rounds, "operations": len(hist), "shapes": shapes}
+		trace := func() []string {
+			var tr []string
+			sort.Slice(hist, func(a, b int) bool { return hist[a].Call < hist[b].Call })
+			for _, op := range hist {
+				tr = append(tr, fmt.Sprintf("client %d [%d,%d] %s", op.ClientId, op.Call, op.Return, describeDir(op.Input.(dirIn), op.Output.(dirOut))))
+			}
+			return tr
+		}
+		if res == porcupine.Illegal {
+			detail["history"] = trace()
+			c.Viol("pair", i, "history=not-linearizable/pair", "the history of operations racing on one service is not equivalent to any sequential order respecting real time", detail)
+		} else if res == porcupine.Unknown {
+			c.Inconclusive("pair", i, "porcupine timeout")
+		} else {
+			c.Count("histories_linearizable", 1)
+		}
+		if k, wmsg := checkEvents(log, wantAdded, map[uint32]bool{}, func(id uint32) bool { return wantAdded[id] }, &progress); k != "" {
+			detail["history"] = trace()
+			log.mu.Lock()
+			detail["event_order"] = fmt.Sprint(log.order)
+			log.mu.Unlock()
+			c.Viol("pair", i, "pair="+k, wmsg, detail)
+		} else if wmsg == "watchdog" {
+			c.Inconclusive("pair", i, "watchdog (events)")
+		}
+		c.Count("pair_rounds", int64(rounds))
+		c.Count("pair_rounds_with_removal_overlapping_the_burst", int64(overlapped))
+		c.Count("pair_operations", int64(len(hist)))
+		if overlapped > 0 {
+			c.Nontrivial(wk.Hash64("pair", i))
+		}
+		if c.WantSample() && i%40 == 0 {
+			c.Sample(map[string]interface{}{"stream": "pair", "rounds": rounds, "operations": len(hist), "rounds_with_overlap": overlapped, "shapes": shapes})
+		}
+	})
 }
 
 // c15race: the hosting server registers and readies a service locally (Server.NewService) while a
